@@ -422,7 +422,7 @@ def run(prog: Program, res: Result) -> None:
     okc = False
     if init is not None:
         for n in ast.walk(init.node):
-            if isinstance(n, ast.Assign) and any(_is_self_attr(t, "cache") for t in n.targets):
+            if (isinstance(n, ast.Assign) and any(_is_self_attr(t, "cache") for t in n.targets)) or (isinstance(n, ast.AnnAssign) and _is_self_attr(n.target, "cache") and n.value is not None):
                 ctor = [c for c in ast.walk(n.value) if isinstance(c, ast.Call) and any(k.arg == "capacity" and norm(k.value) == "capacity" for k in c.keywords)]
                 names = {norm(c.func).split("[")[0] for c in ctor}
                 okc = bool(ctor) and names <= {"LRUCache", "ThreadSafeLRUCache"} and "LRUCache" in names
